@@ -422,8 +422,8 @@ theorem C20_F18_old_quic_defaults_dropped :
 theorem C20_server_message_accepted (ip : List Byte) (port : Nat) (cookies : List (List Byte))
     (msg : List Rec) (hmsg : serverMsg ip port cookies = some msg)
     (hip : ip.length < 65536) (hck : ∀ c ∈ cookies, c.length < 65536)
-    (e : Exchange) (hd : e.dialOk = true) (ha : e.alpn = alpnProto) (hx : e.exportOk = true)
-    (hq : e.quic = false) (hs : e.stream.flatten = packMsg msg) (cached : Data) :
+    (e : Exchange) (hd : e.dialOk = true) (ha : e.quic = true ∨ e.alpn = alpnProto) (hx : e.exportOk = true)
+    (hs : e.stream.flatten = packMsg msg) (cached : Data) :
     exchangeKeys cached e =
       ({ c2s := e.c2s, s2c := e.s2c, server := ip, port := port % 65536, cookies := cookies,
          algo := aesSivCmac256 }, none) := by
@@ -445,8 +445,10 @@ theorem C20_server_message_accepted (ip : List Byte) (port : Nat) (cookies : Lis
       · exact Nat.mod_lt _ (by decide)
       · exact hck c hc
     have hrd := readData_packed _ hfit e.stream [] (by rw [hs, ← hmsg]; simp) (dialData e)
+    have hna : ¬(e.quic = false ∧ e.alpn ≠ alpnProto) := by
+      rcases ha with h | h <;> simp [h]
     unfold exchangeKeys exchangeCore exchangeCoreFrom
-    simp only [hd, ha, hx, hq, hrd, Bool.not_true, Bool.false_eq_true, if_false, ne_eq, not_true_eq_false, and_false]
+    simp only [hd, hna, hx, hrd, Bool.not_true, Bool.false_eq_true, if_false, ne_eq]
     simp only [List.foldl_append, List.foldl_cons, List.foldl_nil, foldl_cookie_recs, Rec.apply, dialData,
       List.headD_cons, List.nil_append, hne, Bool.false_eq_true, if_false, not_true_eq_false]
 
